@@ -158,6 +158,11 @@ def run(ctx: Ctx) -> None:
             add("sv", noise, n, 3, 20)
         for noise, n in itertools.product(mps_noises, [1, 3]):
             add("mps", noise, n, 3, 10)
+        # the upper part of the statement's range (n_trajectories up to 50; counts that are not round numbers), on small registers
+        add("mps", "amplitude", 40, 2, 5)
+        add("mps", "spam", 33, 2, 5)
+        add("sv", "amplitude", 50, 2, 7)
+        add("sv", "spam", 37, 3, 7)
     else:
         for noise, n in itertools.product(sv_noises, [1, 2, 3, 5, 8, 13, 21, 34, 50]):
             add("sv", noise, n, 3, 20)
